@@ -186,7 +186,7 @@ class Tt1Sim(SimBase):
     """Topaz-style tag: HR0/HR1, 120 bytes static memory (HR0 low nibble 1) or
     more (dynamic, 8-byte block commands).  WRITE-E erases then writes,
     WRITE-NE ORs.  Reads beyond the physical memory return zeros and writes
-    there are ignored (the tag still answers).  Commands with another UID or
+    there are ignored (the tag still answers; the command is logged).  Commands with another UID or
     unsupported commands get no answer.  Lock/OTP bytes are plain memory."""
 
     def __init__(self, mem, hr0, hr1):
@@ -206,6 +206,9 @@ class Tt1Sim(SimBase):
 
     def _store(self, addr, new, erase):
         if addr + len(new) > len(self.mem):
+            # nothing is stored, but the command was sent: it is in the log
+            # of write commands (C03 judges the addresses of write commands)
+            self.writes.append((addr, [0] * len(new), list(new)))
             return [0] * len(new)
         old = self.mem[addr:addr + len(new)]
         if not erase:
